@@ -273,9 +273,19 @@ class World:
         elif kind == "update_id":
             if not d.main_components:
                 return
-            tgt = d.main_components[op[1] % len(d.main_components)]
+            pool = list(d.main_components)
+            if len(op) > 2 and op[2]:
+                pool = pool + list(d.pixel_component_ids) + list(d.world_component_ids)     # coordinate attributes can be re-identified too
+            tgt = pool[op[1] % len(pool)]
             pos = [i for i, (c, _) in enumerate(before) if c is tgt][0]
-            new = ComponentID("u%d" % self.counter)
+            if any(tgt is p for p in d.pixel_component_ids):
+                from glue.core.component_id import PixelComponentID
+                new = PixelComponentID(tgt.axis, "u%d" % self.counter)
+                self.kinds.add("update_id:pixel")
+            else:
+                new = ComponentID("u%d" % self.counter)
+                if any(tgt is w for w in d.world_component_ids):
+                    self.kinds.add("update_id:world")
             vals = np.array(d[tgt])
             d.update_id(tgt, new)
             after = self.snap()
@@ -377,7 +387,7 @@ op = st.one_of(
     st.tuples(st.just("remove"), idx),
     st.tuples(st.just("reorder"), st.sampled_from(["valid", "valid", "invalid"]), idx, idx),
     st.tuples(st.just("rename"), idx, st.booleans()),
-    st.tuples(st.just("update_id"), idx),
+    st.tuples(st.just("update_id"), idx, st.sampled_from([0, 0, 1])),
     st.tuples(st.just("update_components"), idx, st.booleans()),
     st.tuples(st.just("refresh"), st.integers(0, 2), st.booleans(), st.integers(0, 3), st.integers(0, 1)),
     st.tuples(st.just("coords"), st.integers(0, 2), st.booleans()),
